@@ -199,6 +199,7 @@ var PeerSpec = map[string]*net.UDPAddr{
 	"B":   {IP: net.IPv4(10, 1, 0, 2).To4(), Port: 5000},
 	"V6":  {IP: net.ParseIP("fd00:1::1"), Port: 5000},
 	"V6b": {IP: net.ParseIP("fd00:1::2"), Port: 5000},
+	"V62": {IP: net.ParseIP("fd00:1::1"), Port: 5001},
 }
 
 type relayGen struct{ w *World }
